@@ -6,6 +6,13 @@
 // ------------------------------------------------------------------ TRIMA = SMA(SMA(x))
 //@extract src/methods/trima.rs struct:TRIMA
 //@end
+impl TRIMA {
+//@extract src/methods/trima.rs impl[Peekable<<Self as Method>::Output> for TRIMA]::peek pub
+//@sig pub fn peek(&self) -> (r: ValueType)
+	// C09: peek returns the value most recently produced (the second stage's current value)
+	ensures r == self.sma2.value,
+//@end
+}
 impl Method for TRIMA {
 	type Params = PeriodType;
 	type Input = ValueType;
@@ -19,7 +26,8 @@ impl Method for TRIMA {
 	open spec fn input_ok(&self, x: &ValueType) -> bool { true }
 	// documented: simple moving average of the simple moving average, both of the same length
 	open spec fn step(pre: &Self, x: &ValueType, post: &Self, out: &ValueType) -> bool {
-		exists|mid: ValueType| SMA::step(&pre.sma1, x, &post.sma1, &mid) && #[trigger] SMA::step(&pre.sma2, &mid, &post.sma2, out)
+		// the intermediate value is the first stage's new value (SMA::step: out == post.value)
+		SMA::step(&pre.sma1, x, &post.sma1, &post.sma1.value) && SMA::step(&pre.sma2, &post.sma1.value, &post.sma2, out)
 	}
 //@extract src/methods/trima.rs impl[Method for TRIMA]::new
 //@end
@@ -90,7 +98,7 @@ pub proof fn trima_const_step(pre: TRIMA, v: R, post: TRIMA, out: R)
 		TRIMA::step(&pre, &v, &post, &out)
 	ensures out@ == v@
 {
-	let mid = choose|mid: ValueType| SMA::step(&pre.sma1, &v, &post.sma1, &mid) && #[trigger] SMA::step(&pre.sma2, &mid, &post.sma2, &out);
+	let mid = post.sma1.value;
 	let n1 = pre.sma1.window.view().len();
 	lemma_sum_konst(n1, v);
 	assert(post.sma1.window.view() =~= konst(n1, v));
